@@ -10,7 +10,7 @@ def _trivial(inp, out):
 PROP = dict(
     model_args=['fixed'],
     trivial=_trivial,
-    rule='(position, move) pairs: positions from random legal playouts (6 policies, sizes 3..8, default and custom reserves, '
+    rule='CONCURRENT family: 18 000 Move calls from 6 goroutines at once on judged (position, move) pairs of mixed sizes, each result compared with the sequential, rules-conforming one; (position, move) pairs: positions from random legal playouts (6 policies, sizes 3..8, default and custom reserves, '
          'past-the-end play) and random well-formed constructed boards (stacks up to 56 high) x (sampled AllMoves moves + malformed '
          'moves: whole int8 coordinate range, all type codes, junk Slides words, carries around the limits, dense off-board grid); '
          'non-trivial = type code in 2..8; distinct = distinct (position, move) strings',
